@@ -394,8 +394,34 @@ def setup_oracle(ctx, n, tdir, model_lines, model_expect):
                 rating.fit_data.cache_clear()
                 with warnings.catch_warnings():
                     warnings.simplefilter("ignore")
-                    rating.fit_data(idnt, profile_path=profile.PROFILE_PATH)
+                    fitted = rating.fit_data(idnt, profile_path=profile.PROFILE_PATH)
                 ok = True
+                # ... and the batch fit used exactly what the profile holds NOW: model, interval, weighting and the
+                # initial parameters (value, vary and the model's limits)
+                fpf = fitted.fit_properties
+                pin = fpf.get("params_initial")
+                ref_p = model.get_init_parms(stored.get("model_key", profile.DEFAULTS["model_key"]))
+                wrong = []
+                if fpf.get("model_key") != stored.get("model_key", profile.DEFAULTS["model_key"]):
+                    wrong.append(f"model_key {fpf.get('model_key')!r}")
+                if [float(v) for v in fpf.get("range_x", [])] != [float(v) for v in stored["range_x"]]:
+                    wrong.append(f"range_x {fpf.get('range_x')!r} (profile: {stored['range_x']!r})")
+                if pin is not None:
+                    for pname in ref_p:
+                        sv = stored.get(f"fit param {pname} value", ref_p[pname].value)
+                        sy = stored.get(f"fit param {pname} vary", ref_p[pname].vary)
+                        if pname not in pin:
+                            wrong.append(f"parameter {pname} missing")
+                            continue
+                        if abs(pin[pname].value - sv) > 1e-12 * max(abs(sv), 1e-300) or bool(pin[pname].vary) != bool(sy):
+                            wrong.append(f"{pname}: value {pin[pname].value!r} vary {pin[pname].vary} (profile: "
+                                         f"{sv!r}, {sy})")
+                        if (pin[pname].min, pin[pname].max) != (ref_p[pname].min, ref_p[pname].max):
+                            wrong.append(f"{pname}: limits [{pin[pname].min}, {pin[pname].max}] (model: "
+                                         f"[{ref_p[pname].min}, {ref_p[pname].max}])")
+                if wrong:
+                    ctx.violation("batch-fit-ignores-profile", "the batch fit did not use the settings the profile "
+                                  "holds: " + "; ".join(wrong[:4]), {"input": desc, "observed": wrong[:6]})
             except BaseException as e:  # noqa
                 ok, err = False, repr(e)
             if not ok:
